@@ -51,7 +51,22 @@ def main():
         shutil.copy(os.path.join(wt, "NOTES.md"), os.path.join(dest, "NOTES.md"))
     # 3. our checks against /repo with the patch applied
     detected = {}
-    if out["confirmed"]:
+    if out["confirmed"] and os.environ.get("SEED_SCRATCH"):
+        # run the checks in a scratch copy of the committed /verif and /repo instead of patching /repo
+        # (usable while something else needs /repo untouched)
+        base = "/tmp/vse_%d" % os.getpid()
+        sh("rm -rf %s && mkdir -p %s/verif %s/repo && git -C /verif archive HEAD | tar -x -C %s/verif && git -C /repo archive HEAD | tar -x -C %s/repo" % (base, base, base, base, base))
+        sh("sed -i 's#path = \"/repo\"#path = \"%s/repo\"#' %s/verif/harness/Cargo.toml" % (base, base))
+        rc, o = sh("git apply %s" % os.path.join(dest, "patch.diff"), cwd=base + "/repo")
+        assert rc == 0, "patch does not apply to the scratch copy: " + o
+        for c in checks:
+            t0 = time.time()
+            rc, o = sh("cd %s/verif && VERIF_REPO=%s/repo ./check %s --tier %s" % (base, base, c, tier), timeout=7200)
+            viol = [l[:300].replace(base, "") for l in o.splitlines() if l.startswith("VIOLATION")]
+            detected[c] = {"exit": rc, "violations": viol[:6], "wall_s": round(time.time() - t0, 1), "last": o.strip().splitlines()[-1][:300] if o.strip() else "", "scratch_copy": True}
+            print(c, "exit", rc, viol[:3], flush=True)
+        shutil.rmtree(base, ignore_errors=True)
+    elif out["confirmed"]:
         rc, o = sh("git -C /repo status --porcelain")
         assert o.strip() == "", "/repo is not clean: " + o
         rc, o = sh("git -C /repo apply %s" % os.path.join(dest, "patch.diff"))
